@@ -41,6 +41,52 @@ RUN_WALL_S = 30.0
 
 
 def _run_one(chk, seed=None, replay=None, wall=None):
+    """Sweeps run in-process (fast).  VERIF_FORK=1 gives every run of a sweep a process of its own as well."""
+    if os.environ.get("VERIF_FORK", "0") == "1":
+        return _run_one_forked(chk, seed=seed, replay=replay, wall=wall)
+    return _run_one_here(chk, seed=seed, replay=replay, wall=wall)
+
+
+def _run_one_forked(chk, seed=None, replay=None, wall=None):
+    """One simulated run in a child process of its own (fork): whatever the code under test keeps at module or
+    class level dies with it, as it would with the real gwf process or worker pool.  Everything that decides about
+    a violation - confirmation, minimisation, replay - goes through here."""
+    import pickle
+    import traceback
+
+    rfd, wfd = os.pipe()
+    pid = os.fork()
+    if pid == 0:
+        code = 0
+        try:
+            os.close(rfd)
+            try:
+                data = pickle.dumps(_run_one_here(chk, seed=seed, replay=replay, wall=wall))
+            except BaseException:
+                data = pickle.dumps({"__error__": traceback.format_exc()})
+                code = 3
+            with os.fdopen(wfd, "wb") as f:
+                f.write(data)
+        finally:
+            os._exit(code)
+    os.close(wfd)
+    chunks = []
+    with os.fdopen(rfd, "rb") as f:
+        while True:
+            b = f.read(1 << 16)
+            if not b:
+                break
+            chunks.append(b)
+    _, status = os.waitpid(pid, 0)
+    if not chunks:
+        raise RuntimeError(f"simulated run (seed {seed}) died without a result: wait status {status}")
+    res = pickle.loads(b"".join(chunks))
+    if isinstance(res, dict) and "__error__" in res:
+        raise RuntimeError("simulated run failed:\n" + res["__error__"])
+    return res
+
+
+def _run_one_here(chk, seed=None, replay=None, wall=None):
     import signal
 
     sc = chk.make_scenario(seed=seed, replay=replay)
@@ -136,7 +182,7 @@ def minimise(chk, rec, budget_s=60.0, max_cand=2000):
             return False
         tried[0] += 1
         try:
-            r = _run_one(chk, replay=dict(knobs=kn or knobs, ops=ops, seed=rec["seed"]), wall=min(float(getattr(chk, "RUN_WALL_S", RUN_WALL_S)), 5.0))
+            r = _run_one_forked(chk, replay=dict(knobs=kn or knobs, ops=ops, seed=rec["seed"]), wall=min(float(getattr(chk, "RUN_WALL_S", RUN_WALL_S)), 5.0))
         except Exception:
             return False
         return r["violation"] is not None and _sig_key(r["violation"]) == want
@@ -186,7 +232,7 @@ def minimise(chk, rec, budget_s=60.0, max_cand=2000):
     out = dict(rec)
     out["ops"] = ops
     out["knobs"] = knobs
-    r = _run_one(chk, replay=dict(knobs=knobs, ops=ops, seed=rec["seed"]))
+    r = _run_one_forked(chk, replay=dict(knobs=knobs, ops=ops, seed=rec["seed"]))
     out["signature"] = r["violation"]
     out["detail"] = r["detail"]
     out["digest"] = r["digest"]
@@ -229,7 +275,9 @@ def replay_file(prop, path, quiet=False):
         rp = json.load(f)
     r = _run_one(chk, replay=rp)
     same_sig = r["violation"] is not None and _sig_key(r["violation"]) == _sig_key(rp["signature"])
-    same_digest = r["digest"] == rp["digest"]
+    same_digest = r["digest"] == rp["digest"] or rp.get("digest") is None
+    if rp.get("digest") is None:
+        print(f"digest={r['digest']}")  # a replay file without a digest: tell the caller what a fresh interpreter gives
     if not quiet:
         print(f"replay {path}: violation={r['violation']} detail={r['detail']}")
         print(f"  signature {'matches' if same_sig else 'DIFFERS'}; event-log digest {'matches' if same_digest else 'DIFFERS'}")
@@ -388,6 +436,7 @@ def main(argv=None):
     reported = []
     n_known = 0
     known_hit = {}
+    unconfirmed = []
     min_budget = float(chk.__dict__.get("MINIMISE_TOTAL_S", 150.0))
     t_min = time.time()
     for key, vs in sorted(groups.items()):
@@ -395,7 +444,7 @@ def main(argv=None):
         e = match_known(rec["signature"], known)
         if e is not None:
             # a listed finding: no need to minimise, but the recorded op list must replay
-            chk_r = _run_one(chk, replay=dict(knobs=rec["knobs"], ops=rec["ops"], seed=rec["seed"]))
+            chk_r = _run_one_forked(chk, replay=dict(knobs=rec["knobs"], ops=rec["ops"], seed=rec["seed"]))
             if chk_r["violation"] is None or _sig_key(chk_r["violation"]) != key:
                 print(f"HARNESS-ERROR violation {key} of run {rec['i']} does not replay from its recorded op list")
                 return 2
@@ -405,10 +454,25 @@ def main(argv=None):
         if len(reported) >= 8:
             exit_code = 1
             continue
+        # a worker executes many runs; only a violation that a process of its own reproduces counts (the code under
+        # test may carry module- or class-level state from one simulated run into the next)
+        confirmed = None
+        for cand in vs[:40]:
+            try:
+                cr = _run_one_forked(chk, replay=dict(knobs=cand["knobs"], ops=cand["ops"], seed=cand["seed"]))
+            except Exception:
+                continue
+            if cr["violation"] is not None and _sig_key(cr["violation"]) == key:
+                confirmed = dict(cand, signature=cr["violation"], detail=cr["detail"], digest=cr["digest"])
+                break
+        if confirmed is None:
+            unconfirmed.append((key, rec["i"], len(vs)))
+            continue
+        rec = confirmed
         if not args.no_minimise and time.time() - t_min < min_budget:
             rec, cands = minimise(chk, rec, budget_s=chk.__dict__.get("MINIMISE_S", 40.0))
         else:
-            r0 = _run_one(chk, replay=dict(knobs=rec["knobs"], ops=rec["ops"], seed=rec["seed"]))
+            r0 = _run_one_forked(chk, replay=dict(knobs=rec["knobs"], ops=rec["ops"], seed=rec["seed"]))
             rec = dict(rec, signature=r0["violation"], detail=r0["detail"], digest=r0["digest"])
         if rec["signature"] is None:
             print(f"HARNESS-ERROR violation {key} of run {vs[0]['i']} does not replay from its recorded op list")
@@ -423,14 +487,42 @@ def main(argv=None):
         path = write_replay(prop, rec, tag)
         ok, out = replay_in_fresh_process(prop, path)
         if not ok:
-            print(f"HARNESS-ERROR replay {path} did not reproduce in a fresh process:\n{out}")
-            return 2
+            # The worker that found (and minimised) it had executed other runs before: code under test that keeps
+            # state at module or class level carries it from one simulated process into the next.  Only what a
+            # FRESH interpreter reproduces counts: try the recorded, unminimised op lists of this group there.
+            found = None
+            for cand in vs[:6]:
+                crec = dict(cand, digest=None)
+                cpath = write_replay(prop, crec, f"{cand['signature']['rule']}-{cand['seed']}-unminimised")
+                ok2, out2 = replay_in_fresh_process(prop, cpath)
+                dg = [ln[7:].strip() for ln in out2.splitlines() if ln.startswith("digest=")]
+                if ok2 and dg:
+                    crec["digest"] = dg[0]
+                    cpath = write_replay(prop, crec, f"{cand['signature']['rule']}-{cand['seed']}-unminimised")
+                    ok3, out3 = replay_in_fresh_process(prop, cpath)  # and once more, now with the digest pinned
+                    if ok3:
+                        found = (crec, cpath)
+                        break
+            if found is None:
+                print(f"HARNESS-ERROR replay {path} did not reproduce in a fresh process:\n{out}")
+                return 2
+            rec, path = found
+            mkey = _sig_key(rec["signature"])
+            print(f"  (not minimised: the minimised replay did not reproduce in a fresh interpreter - the code under test "
+                  f"keeps state across simulated processes; the recorded run itself does reproduce)")
         exit_code = 1
         reported.append(mkey)
         print(f"  {rec['signature']['rule']}: {rec['detail']}")
         print(f"  facets={rec['signature']['facets']} seen in {len(vs)} of {total['runs']} runs; "
               f"minimised to {len(rec['ops'])} ops")
         print(f"VIOLATION property={prop} replay={path}")
+    for key, i_run, n in unconfirmed:
+        print(f"  not counted: {key} seen in {n} runs (first: run {i_run}) does not reproduce in a process of its own - "
+              f"state carried over from earlier simulated runs of the same worker")
+    if unconfirmed and not reported:
+        print(f"HARNESS-ERROR {len(unconfirmed)} violation signature(s) of this sweep do not reproduce in a process of "
+              f"their own and no other violation was confirmed")
+        return 2
     for fid, (e, n) in sorted(known_hit.items()):
         n_known += 1
         print(f"KNOWN-FINDING: property={prop} {fid}: {e['what']} ({n} executions in this run)")
